@@ -86,11 +86,105 @@ theorem closeLoop_origin (es : List (V × V)) :
         exact Or.inr (Or.inr ⟨u, (mem_succs es u y).mp hv⟩)
       · exact Or.inr (Or.inr h1)
 
+/-- the invariant of the work list: everything one step from `result` is in `result` or still on the list -/
+theorem workLoop_closed (es : List (V × V)) :
+    ∀ (k : Nat) (work result r : List V), workLoop es k work result = some r →
+      (∀ u, u ∈ result → ∀ v, v ∈ succs es u → v ∈ result ∨ v ∈ work) →
+      (∀ u, u ∈ result ∨ u ∈ work → u ∈ r) ∧ (∀ u, u ∈ r → ∀ v, v ∈ succs es u → v ∈ r) := by
+  intro k
+  induction k with
+  | zero => intro work result r h; simp [workLoop] at h
+  | succ k ih =>
+    intro work result r h inv
+    cases work with
+    | nil =>
+      simp only [workLoop] at h
+      cases h
+      constructor
+      · intro u hu
+        rcases hu with hu | hu
+        · exact hu
+        · cases hu
+      · intro u hu v hv
+        rcases inv u hu v hv with h1 | h1
+        · exact h1
+        · cases h1
+    | cons x work =>
+      simp only [workLoop] at h
+      split at h
+      · rename_i hc
+        have hx : x ∈ result := by simpa using hc
+        have := ih work result r h (by
+          intro u hu v hv
+          rcases inv u hu v hv with h1 | h1
+          · exact Or.inl h1
+          · rcases List.mem_cons.mp h1 with h2 | h2
+            · subst h2; exact Or.inl hx
+            · exact Or.inr h2)
+        constructor
+        · intro u hu
+          rcases hu with hu | hu
+          · exact this.1 u (Or.inl hu)
+          · rcases List.mem_cons.mp hu with h2 | h2
+            · subst h2; exact this.1 _ (Or.inl hx)
+            · exact this.1 u (Or.inr h2)
+        · exact this.2
+      · have := ih _ (x :: result) r h (by
+          intro u hu v hv
+          rcases List.mem_cons.mp hu with h2 | h2
+          · subst h2
+            by_cases hvr : v ∈ u :: result
+            · exact Or.inl hvr
+            · refine Or.inr (List.mem_append_left _ (List.mem_filter.mpr ⟨hv, ?_⟩))
+              simpa using hvr
+          · rcases inv u h2 v hv with h1 | h1
+            · exact Or.inl (List.mem_cons_of_mem _ h1)
+            · rcases List.mem_cons.mp h1 with h3 | h3
+              · subst h3; exact Or.inl List.mem_cons_self
+              · exact Or.inr (List.mem_append_right _ h3))
+        constructor
+        · intro u hu
+          rcases hu with hu | hu
+          · exact this.1 u (Or.inl (List.mem_cons_of_mem _ hu))
+          · rcases List.mem_cons.mp hu with h2 | h2
+            · subst h2; exact this.1 _ (Or.inl List.mem_cons_self)
+            · exact this.1 u (Or.inr (List.mem_append_right _ h2))
+        · exact this.2
+
+/-- everything the work list returns was in the start sets or is the target of an edge -/
+theorem workLoop_origin (es : List (V × V)) :
+    ∀ (k : Nat) (work result r : List V), workLoop es k work result = some r →
+      ∀ y, y ∈ r → y ∈ result ∨ y ∈ work ∨ ∃ u, (u, y) ∈ es := by
+  intro k
+  induction k with
+  | zero => intro work result r h; simp [workLoop] at h
+  | succ k ih =>
+    intro work result r h y hy
+    cases work with
+    | nil =>
+      simp only [workLoop] at h
+      cases h; exact Or.inl hy
+    | cons x work =>
+      simp only [workLoop] at h
+      split at h
+      · rcases ih _ _ r h y hy with h1 | h1 | h1
+        · exact Or.inl h1
+        · exact Or.inr (Or.inl (List.mem_cons_of_mem _ h1))
+        · exact Or.inr (Or.inr h1)
+      · rcases ih _ _ r h y hy with h1 | h1 | h1
+        · rcases List.mem_cons.mp h1 with h2 | h2
+          · subst h2; exact Or.inr (Or.inl List.mem_cons_self)
+          · exact Or.inl h2
+        · rcases List.mem_append.mp h1 with h2 | h2
+          · exact Or.inr (Or.inr ⟨x, (mem_succs es x y).mp (List.mem_filter.mp h2).1⟩)
+          · exact Or.inr (Or.inl (List.mem_cons_of_mem _ h2))
+        · exact Or.inr (Or.inr h1)
+
 /-- `multi_step_taint` returns (at least) everything reachable in zero or more steps -/
 theorem multiStepTaint_complete (es : List (V × V)) (fuel : Nat) (x : V) (r : List V)
     (h : multiStepTaint es fuel x = some r) : ∀ y, Reach es x y → y ∈ r := by
   unfold multiStepTaint at h
-  have := closeLoop_closed es fuel [x] [] r h (by intro u hu; cases hu)
+  have := workLoop_closed es fuel [x] [] r h (by intro u hu; cases hu)
   intro y hy
   induction hy with
   | refl => exact this.1 x (Or.inr (List.mem_singleton.mpr rfl))
@@ -100,7 +194,7 @@ theorem multiStepTaint_complete (es : List (V × V)) (fuel : Nat) (x : V) (r : L
 theorem multiStepCons_partners (es : List (V × V)) (fuel : Nat) (x : V) (r : List V)
     (h : multiStepCons es fuel x = some r) : ∀ y, (x, y) ∈ es → y ∈ r := by
   unfold multiStepCons at h
-  have := closeLoop_closed es fuel (succs es x) [] r h (by intro u hu; cases hu)
+  have := workLoop_closed es fuel (succs es x) [] r h (by intro u hu; cases hu)
   intro y hy
   exact this.1 y (Or.inr ((mem_succs es x y).mpr hy))
 
@@ -108,7 +202,7 @@ theorem multiStepCons_origin (es : List (V × V)) (fuel : Nat) (x : V) (r : List
     (h : multiStepCons es fuel x = some r) : ∀ y, y ∈ r → ∃ u, (u, y) ∈ es := by
   unfold multiStepCons at h
   intro y hy
-  rcases closeLoop_origin es fuel _ _ r h y hy with h1 | h1 | h1
+  rcases workLoop_origin es fuel _ _ r h y hy with h1 | h1 | h1
   · cases h1
   · exact ⟨x, (mem_succs es x y).mp h1⟩
   · exact h1
@@ -561,16 +655,72 @@ theorem closeLoop_sound (es : List (V × V)) (x : V) :
       · obtain ⟨w, hw, hv⟩ := List.mem_flatMap.mp hu
         exact Reach.step (hstart w (Or.inr hw)) ((mem_succs es w u).mp hv)
 
+/-- everything the work list returns is reachable from `x`, if its start sets are -/
+theorem workLoop_sound (es : List (V × V)) (x : V) :
+    ∀ (k : Nat) (work result r : List V), workLoop es k work result = some r →
+      (∀ u, u ∈ result ∨ u ∈ work → Reach es x u) → ∀ y, y ∈ r → Reach es x y := by
+  intro k
+  induction k with
+  | zero => intro work result r h; simp [workLoop] at h
+  | succ k ih =>
+    intro work result r h hstart y hy
+    cases work with
+    | nil =>
+      simp only [workLoop] at h
+      cases h; exact hstart y (Or.inl hy)
+    | cons w work =>
+      simp only [workLoop] at h
+      split at h
+      · apply ih _ _ r h _ y hy
+        intro u hu
+        rcases hu with hu | hu
+        · exact hstart u (Or.inl hu)
+        · exact hstart u (Or.inr (List.mem_cons_of_mem _ hu))
+      · apply ih _ _ r h _ y hy
+        intro u hu
+        rcases hu with hu | hu
+        · rcases List.mem_cons.mp hu with h2 | h2
+          · subst h2; exact hstart _ (Or.inr List.mem_cons_self)
+          · exact hstart u (Or.inl h2)
+        · rcases List.mem_append.mp hu with h2 | h2
+          · exact Reach.step (hstart w (Or.inr List.mem_cons_self)) ((mem_succs es w u).mp (List.mem_filter.mp h2).1)
+          · exact hstart u (Or.inr (List.mem_cons_of_mem _ h2))
+
 theorem multiStepTaint_sound (es : List (V × V)) (fuel : Nat) (x : V) (r : List V)
     (h : multiStepTaint es fuel x = some r) : ∀ y, y ∈ r → Reach es x y := by
   unfold multiStepTaint at h
-  apply closeLoop_sound es x fuel [x] [] r h
+  apply workLoop_sound es x fuel [x] [] r h
   intro u hu
   rcases hu with hu | hu
   · cases hu
   · have : u = x := List.mem_singleton.mp hu
     subst this; exact Reach.refl
 
+/-- the pre-repair loop and the work list compute the same set (both: what is reachable from the start) -/
+theorem closure_repair_same (es : List (V × V)) (k k' : Nat) (x : V) (r r' : List V)
+    (h : closeLoop es k [x] [] = some r) (h' : workLoop es k' [x] [] = some r') : ∀ y, y ∈ r ↔ y ∈ r' := by
+  have start : ∀ u, u ∈ ([] : List V) ∨ u ∈ [x] → Reach es x u := by
+    intro u hu
+    rcases hu with hu | hu
+    · cases hu
+    · have : u = x := List.mem_singleton.mp hu
+      subst this; exact Reach.refl
+  have c1 := closeLoop_closed es k [x] [] r h (by intro u hu; cases hu)
+  have c2 := workLoop_closed es k' [x] [] r' h' (by intro u hu; cases hu)
+  have s1 := closeLoop_sound es x k [x] [] r h start
+  have s2 := workLoop_sound es x k' [x] [] r' h' start
+  have reach1 : ∀ y, Reach es x y → y ∈ r := by
+    intro y hy
+    induction hy with
+    | refl => exact c1.1 x (Or.inr (List.mem_singleton.mpr rfl))
+    | step _ he ih => exact c1.2 _ ih _ ((mem_succs es _ _).mpr he)
+  have reach2 : ∀ y, Reach es x y → y ∈ r' := by
+    intro y hy
+    induction hy with
+    | refl => exact c2.1 x (Or.inr (List.mem_singleton.mpr rfl))
+    | step _ he ih => exact c2.2 _ ih _ ((mem_succs es _ _).mpr he)
+  intro y
+  exact ⟨fun hy => reach2 y (s1 y hy), fun hy => reach1 y (s2 y hy)⟩
 
 def unseen (U result : List V) : Nat := (U.filter (fun x => !result.contains x)).length
 
@@ -618,19 +768,82 @@ theorem closeLoop_terminates (es : List (V × V)) (U : List V) (hU : ∀ a b, (a
             simpa using hx.1
         omega
 
-/-- `multi_step_taint` terminates within |U| + 1 iterations, U = the start variable and all edge targets -/
+/-- the edges whose source has not been expanded yet -/
+def pending (es : List (V × V)) (result : List V) : Nat := (es.filter (fun e => !result.contains e.1)).length
+
+theorem succs_length (es : List (V × V)) (x : V) : (succs es x).length = (es.filter (fun e => e.1 == x)).length := by
+  unfold succs; simp
+
+theorem pending_expand (es : List (V × V)) (result : List V) (x : V) (hx : x ∉ result) :
+    pending es (x :: result) + (succs es x).length = pending es result := by
+  unfold pending
+  rw [succs_length]
+  induction es with
+  | nil => rfl
+  | cons e es ih =>
+    simp only [List.filter_cons]
+    by_cases h1 : e.1 = x
+    · have a : (!(x :: result).contains e.1) = false := by simp [h1]
+      have b : (!result.contains e.1) = true := by simp [h1, hx]
+      have c : (e.1 == x) = true := by simp [h1]
+      simp only [a, b, c, List.length_cons, if_true]
+      simp only [Bool.false_eq_true, if_false]
+      omega
+    · have c : (e.1 == x) = false := by simp [h1]
+      by_cases h2 : e.1 ∈ result
+      · have a : (!(x :: result).contains e.1) = false := by simp [h2]
+        have b : (!result.contains e.1) = false := by simp [h2]
+        simp only [a, b, c, Bool.false_eq_true, if_false]
+        exact ih
+      · have a : (!(x :: result).contains e.1) = true := by simp [h1, h2]
+        have b : (!result.contains e.1) = true := by simp [h2]
+        simp only [a, b, c, if_true, Bool.false_eq_true, if_false, List.length_cons]
+        omega
+
+/-- the work list empties by itself: every iteration pops an entry, and entries are pushed only when a variable is expanded — at
+    most once per edge; a budget above (entries on the list + edges with an unexpanded source) is never exhausted -/
+theorem workLoop_terminates (es : List (V × V)) :
+    ∀ (k : Nat) (work result : List V), work.length + pending es result < k → ∃ r, workLoop es k work result = some r := by
+  intro k
+  induction k with
+  | zero => intro _ _ h; omega
+  | succ k ih =>
+    intro work result hm
+    cases work with
+    | nil => exact ⟨result, by simp [workLoop]⟩
+    | cons x work =>
+      simp only [workLoop]
+      split
+      · apply ih
+        simp only [List.length_cons] at hm
+        omega
+      · rename_i hc
+        have hx : x ∉ result := by simpa using hc
+        apply ih
+        have h1 := pending_expand es result x hx
+        have h2 := List.length_filter_le (fun s => !(x :: result).contains s) (succs es x)
+        simp only [List.length_append, List.length_cons] at hm ⊢
+        omega
+
+/-- `multi_step_taint` terminates within (number of edges + 2) iterations -/
 theorem multiStepTaint_terminates (es : List (V × V)) (x : V) :
-    ∃ r, multiStepTaint es ((x :: es.map (·.2)).length + 1) x = some r := by
-  unfold multiStepTaint
-  apply closeLoop_terminates es (x :: es.map (·.2))
-  · intro a b hab
-    exact List.mem_cons_of_mem _ (List.mem_map.mpr ⟨(a, b), hab, rfl⟩)
-  · intro u hu
-    have : u = x := List.mem_singleton.mp hu
-    subst this
-    exact List.mem_cons_self
-  · unfold unseen
-    have := List.length_filter_le (fun y => !([] : List V).contains y) (x :: es.map (·.2))
-    omega
+    ∃ r, multiStepTaint es (closureFuel es 1) x = some r := by
+  unfold multiStepTaint closureFuel
+  apply workLoop_terminates
+  have := List.length_filter_le (fun e => !([] : List V).contains e.1) es
+  unfold pending
+  simp only [List.length_cons, List.length_nil]
+  omega
+
+/-- `multi_step_constraint` terminates within (2 · number of edges + 1) iterations -/
+theorem multiStepCons_terminates (es : List (V × V)) (x : V) :
+    ∃ r, multiStepCons es (closureFuel es es.length) x = some r := by
+  unfold multiStepCons closureFuel
+  apply workLoop_terminates
+  have h1 := List.length_filter_le (fun e => !([] : List V).contains e.1) es
+  have h2 : (succs es x).length ≤ es.length := by
+    rw [succs_length]; exact List.length_filter_le _ _
+  unfold pending
+  omega
 
 end Circomspect.Taint
